@@ -24,8 +24,8 @@ TRUSTED = ["ocaml/driver/c02.ml: comparison of verdict and counterexample length
 
 def streams(tier, seed):
     if tier == "quick":
-        return [dict(tag="main", count=100, seed=seed)]
-    return [dict(tag="main%d" % k, count=500, seed=seed * 1000 + k, extra={"child-runs": 6}) for k in range(6)]
+        return [dict(tag="main", count=80, seed=seed)]
+    return [dict(tag="main%d" % k, count=300, seed=seed * 1000 + k, extra={"child-runs": 4}) for k in range(4)]
 
 
 def search_streams(tier, seed, diffs):
@@ -33,10 +33,16 @@ def search_streams(tier, seed, diffs):
 
 
 MANIFEST = dict(
-    level_text=("Theorems (Coq): see Props/C02.v (bmc_spec_exact: the explicit-state reference returns the least depth <= k at which a "
-                "constrained execution from an initial valuation is in a bad state, for ALL systems; the loop of bmc.rs over an abstract "
-                "correct solver). Tie to /repo: verdict and counterexample length of the real patronus::mc::bmc with real solvers (four "
-                "capability profiles, both checking modes, raw/simplified) vs the extracted bmc_spec on every run."),
+    level_text=("Theorems (Coq): C02_bmc_spec_exact / _exact_range / _complete / _verdict: the explicit-state reference bmc_spec returns the "
+                "least depth <= k at which a constrained execution from an initial valuation is in a bad state, None if there is none - for "
+                "ALL well-formed systems (array states compared with their init on the index range; executions of Spec/System.v when no "
+                "array state has an init). Algorithm layer (Model/Bmc.v = the loop of bmc.rs over an abstract correct solver, tied to the "
+                "real loop by a recording solver): C02_bmc_modes_agree (individual = joint checking), C02_bmc_no_missed_counterexample (a "
+                "reachable bad state within the bound is never answered Success; uses C04's well-formedness and faithfulness theorems). "
+                "NOT proved: every Fail of the loop is a real counterexample (converse of faithfulness) - covered per run by C03. "
+                "Tie to /repo: verdict and counterexample length of the real patronus::mc::bmc with real solvers (four capability "
+                "profiles, both modes, raw/simplified) vs the extracted bmc_spec on every run."),
     level_note=("Trusted: Coq kernel; SMT solvers assumed correct (two must agree with the reference); oracle runs only on systems with "
-                "<= 2^15 valuations per step. Encoding defects of C04 surface here as Err instead of Fail/Success (known findings)."),
+                "<= 2^15 valuations per step. Encoding defects of C04 surface here as Err instead of Fail/Success, cvc5's refusal of "
+                "(as const ..) of a non-value as Err or a hang (known findings)."),
 )
